@@ -1080,6 +1080,40 @@ def run_bcif_history(case):
 
 
 # --------------------------------------------------------------------------
+def st_long_tables(tier):
+    """Looped categories with many rows (60..140; thorough up to 400): mostly plain fillers, a few awkward
+    cells at drawn rows, one of them usually the longest value of its column."""
+    max_rows = 140 if tier == "quick" else 400
+
+    @st.composite
+    def gen(draw):
+        nrow = draw(st.one_of(st.integers(60, 70), st.integers(60, max_rows)))
+        ncol = draw(st.integers(1, 3))
+        cols = []
+        used = set()
+        for j in range(ncol):
+            filler = draw(st.sampled_from(["x", "ab", "1.5", "N", "CA", "0", "HOH", "a-b"]))
+            cells = [[0, filler if i % 3 else filler + str(i % 7)] for i in range(nrow)]
+            for _ in range(draw(st.integers(1, 5))):
+                row = draw(st.integers(0, nrow - 1))
+                cell = draw(st_cell(9))
+                if draw(st.booleans()) and cell[0] == 0:
+                    # make it the longest value of the column
+                    cell[1] = cell[1] + draw(st.sampled_from(["zzzzzzzz", " zzzzzzz", "'zzzzzz", "_zzzzzzz"]))
+                    cell[1], hit = narrow(cell[1])
+                    cell[2] = sorted(set(cell[2]) | set(hit))
+                cells[row] = cell
+            i = draw(st.integers(0, len(NAME_POOL) - 1))
+            while NAME_POOL[i] in used:
+                i = (i + 1) % len(NAME_POOL)
+            used.add(NAME_POOL[i])
+            cols.append({"name": NAME_POOL[i], "cells": cells, "explicit_mask": draw(st.booleans())})
+        cat = {"name": draw(st.sampled_from(["atom_site", "a", "B[1][2]"])), "cols": cols}
+        return _finish_table_case({"blocks": [{"name": "blk", "cats": [cat]}]})
+
+    return gen()
+
+
 SUBS = [
     Sub(
         "table_roundtrip",
@@ -1089,6 +1123,15 @@ SUBS = [
         thorough=300000,
         rule="looped category (>= 2 rows) holding >= 1 present value that must be quoted or written as text field",
         clauses="names and order of blocks/categories/columns, as_array(str), masks, row_count; via serialize/deserialize and write/read",
+    ),
+    Sub(
+        "long_tables",
+        st_long_tables,
+        run_table_roundtrip,
+        quick=320,
+        thorough=8000,
+        rule="looped category with 60..140 rows (thorough: up to 400) and awkward values at a few rows",
+        clauses="string table returned unchanged for long columns (row count dependent code paths)",
     ),
     Sub(
         "cif_containers",
